@@ -172,6 +172,7 @@ def judge(ctx, case):
 
 
 def canaries(ctx):
+    ctx.repo_tests_under_monitors(('C09',))       # second, independent workload for the same oracle
     recs = [b'abcde', b'x' * 1008, b'yz']
     s = ref.vbs(recs)
     ctx.canary('cut inside 2nd record keeps only the first', ref.vbs_records_in(s[:500]) == ([recs[0]], 'short_record'))
